@@ -87,6 +87,13 @@ func VerifC08_w1_get() {
 	if len(w.encoded) != 1 {
 		return
 	}
+	conforms := verifSchemaAccepts(openapiDoc, "GET /get", map[string]any{"response:200": w.encoded[0]})
+	if tiny {
+		// known: a method whose view is chosen at run time is documented with the default view only
+		verifAssert("openapi:response-conforms[run-time-view-other-than-default]", conforms)
+	} else {
+		verifAssert("openapi:response-conforms", conforms)
+	}
 	label := w.h.Get("goa-view")
 	verifAssert("view-name-accompanies-response", label == view || (view == "" && label == "default"))
 	// ---- keys on the wire
@@ -159,6 +166,12 @@ func VerifC08_w1_list_fixed() {
 		if len(w.encoded) != 1 {
 			return
 		}
+		lconf := verifSchemaAccepts(openapiDoc, "GET /list", map[string]any{"response:200": w.encoded[0]})
+		if view == "tiny" {
+			verifAssert("openapi:response-conforms[run-time-view-other-than-default]", lconf)
+		} else {
+			verifAssert("openapi:response-conforms", lconf)
+		}
 		resp := &http.Response{StatusCode: w.status, Header: w.h, Body: io.NopCloser(strings.NewReader(""))}
 		out, err := client.DecodeListResponse(func(*http.Response) goahttp.Decoder {
 			return stubDecoder{func(v any) error { return verifJSONCopy(v, w.encoded[0]) }}
@@ -181,6 +194,7 @@ func VerifC08_w1_list_fixed() {
 	}
 	_, isTiny := w.encoded[0].(*server.FixedResponseBodyTiny)
 	verifAssert("fixed:design-view-on-the-wire", isTiny)
+	verifAssert("openapi:response-conforms", verifSchemaAccepts(openapiDoc, "GET /fixed", map[string]any{"response:200": w.encoded[0]}))
 	resp := &http.Response{StatusCode: w.status, Header: w.h, Body: io.NopCloser(strings.NewReader(""))}
 	out, err := client.DecodeFixedResponse(func(*http.Response) goahttp.Decoder {
 		return stubDecoder{func(v any) error { return verifJSONCopy(v, w.encoded[0]) }}
